@@ -30,12 +30,13 @@ COMPONENTS = ["initial_state_dist", "actions", "next_state_dist", "reward", "is_
 @st.composite
 def base_specs(draw, flavours=("discounted", "negative"), max_states=5, **kw):
     fl = draw(st.sampled_from(flavours))
-    return draw(mdp_specs(fl, min_states=2, max_states=max_states, allow_explicit=False, gammas=[0.5, 0.9], **kw))
+    return draw(mdp_specs(fl, min_states=2, max_states=max_states, allow_explicit=kw.pop("allow_explicit", False),
+                          gammas=[0.5, 0.9], **kw))
 
 
 @st.composite
 def augment_cases(draw, tier="quick"):
-    base = draw(base_specs())
+    base = draw(base_specs(allow_explicit=True))
     repl = copy.deepcopy(base)
     n, m = base["n"], base["m"]
     # replacement components: re-drawn transitions / rewards / actions / absorbing flags / p0
